@@ -38,6 +38,7 @@ WithTol(e, r) == IF e.args.mode = "approx" /\ r.ok THEN [tol |-> e.args.tol] @@ 
 RECURSIVE RunProg(_, _, _)
 ExpectWith(e, a) ==
     CASE e.op = "add_self"    -> IF a.ok THEN [a EXCEPT !.elems = [q \in 1..Len(a.elems) |-> 2 * a.elems[q]]] ELSE a     \* C11: add(v, v)
+      [] e.op = "concat_self" -> Concatenate(a, a, e.args.axis)                                                          \* C11: concatenate(v, v, axis)
       [] e.op = "cast"        -> a          \* C20 / C09: casting to another array kind or element type keeps shape and values
       [] e.op = "reshape"     -> Reshape(a, e.args.dst)
       [] e.op = "flatten"     -> Flatten(a)
